@@ -127,3 +127,38 @@ def reindex(df, rng, kind=None):
     elif kind == 'gappy':       # a subset of a larger cohort: increasing labels with gaps, mostly >= n
         df.index = sorted(rng.sample(range(3 * n), n))
     return df, kind
+
+
+# ---- semantic no-ops every estimator must ignore: the caller's row labels and the storage type of a 0/1-coded exposure
+DRESS_INDEX = ['range', 'shuffle', 'gappy', 'shift', 'str']
+DRESS_ADTYPE = ['int64', 'float64', 'uint8', 'int8', 'int32', 'float32']
+
+
+def dress(df, rng, i=None, col='A'):
+    """returns (frame with other row labels / exposure storage type, description).  i cycles the kinds deterministically."""
+    kind = DRESS_INDEX[i % len(DRESS_INDEX)] if i is not None else rng.choice(DRESS_INDEX)
+    adt = DRESS_ADTYPE[(i // 2) % len(DRESS_ADTYPE)] if i is not None else rng.choice(DRESS_ADTYPE)
+    df, kind = reindex(df, rng, kind)
+    if col in df.columns and adt != 'int64' and df[col].notna().all():
+        df[col] = df[col].astype(adt)
+    else:
+        adt = str(df[col].dtype) if col in df.columns else 'int64'
+    return df, {'index': kind, 'adtype': adt}
+
+
+def pack_frame(df):
+    """JSON-able copy of a frame that survives a replay: values (NaN -> None), row labels, storage types"""
+    return {'data': {c: [None if (isinstance(v, float) and v != v) else (v.item() if hasattr(v, 'item') else v) for v in df[c].tolist()]
+                     for c in df.columns},
+            'index': [i if isinstance(i, str) else (int(i) if float(i) == int(i) else float(i)) for i in df.index],
+            'dtypes': {c: str(df[c].dtype) for c in df.columns}}
+
+
+def unpack_frame(p):
+    df = pd.DataFrame(p['data'])
+    for c, t in (p.get('dtypes') or {}).items():
+        if c in df.columns:
+            df[c] = df[c].astype(t)
+    if p.get('index') is not None:
+        df.index = p['index']
+    return df
